@@ -59,6 +59,25 @@ ReqKeyLoad(be, a, out, o) ==
   \cup
   (IF out = "Ok" THEN KeyOkClauses(be, a, o) ELSE {})
 
+(* PrivateKeyDer values made by the caller: the label (PKCS#8 / SEC1 / PKCS#1) is not checked by the type and may be wrong.  *)
+(* A rightly labelled key is held to what KeyLoad demands of the entries that label by themselves; a wrongly labelled one      *)
+(* is refused or loads as the same key (the back ends differ: ring goes by the label, aws-lc-rs looks inside), and never        *)
+(* anything else - in particular no panic (C10, common clause).                                                                 *)
+WrapperOf(fmt) == IF fmt = "sec1" THEN "sec1" ELSE IF fmt = "pkcs1" THEN "pkcs1" ELSE "pkcs8"
+ReqKeyWrapped(be, a, out, o) ==
+  LET plainEntry == IF a.reqAlg = "none" THEN "auto-der" ELSE "der-explicit" IN
+  { <<"C11.load_of_supported_key_succeeds", a.wrapper = WrapperOf(a.fmt) /\ MustLoad(be, plainEntry, a.fmt, a.reqAlg, a.key.type) /\ RsaSizeAccepted(be, a.key.bits) => out = "Ok">>,
+    <<"C11.misfit_is_err", MustNotLoad(a.reqAlg, a.key.type) => out = "Err">>,
+    <<"C11.wrapped_key_loads_or_is_refused", out \in {"Ok", "Err"}>> }
+  \cup
+  (IF out = "Ok"
+   THEN IF a.wrapper = WrapperOf(a.fmt) THEN KeyOkClauses(be, a, o)
+        (* Observed, outside what C11 quantifies over (the caller mislabelled the bytes): aws-lc-rs reads a SEC1 key labelled PKCS#8, *)
+        (* and serialize_der then hands the caller's SEC1 bytes back; the clauses about the export are not applied to such loads.     *)
+        ELSE { cl \in KeyOkClauses(be, a, o) : cl[1] \notin {"C11.reexport_loads_again", "C11.reexport_pem_loads_again",
+                                                               "C11.reexport_loads_through_every_entry", "C11.export_is_pkcs8"} }
+   ELSE {})
+
 (* keys generated by rcgen: generate_for for every algorithm of the build (RSA only where the back end can make RSA keys: *)
 (* aws-lc-rs), generate_rsa_for for the three RSA sizes; a generated key is held to everything a loaded key is, with the    *)
 (* requested algorithm as the one it was "told"; a.key is OpenSSL's reading of the exported private key                     *)
